@@ -378,6 +378,9 @@ def cmp_chain(case, impl, model):
             return "token accepted although not every signature is one an honest party made over that payload (mutation: %s)" % case.get("mutation")
         return "token rejected although its chain is valid (mutation: %s; error %s)" % (case.get("mutation"), impl.get("error"))
     if impl["accept"]:
+        unread = [k for k, t in enumerate(impl.get("sources", [])) if isinstance(t, str) and t.startswith("ERR:")]
+        if unread:
+            return "accepted token whose block %d cannot be read: %s (mutation: %s)" % (unread[0], impl["sources"][unread[0]][:160], case.get("mutation"))
         for k in ("ids", "ext_keys", "block_count", "root_key_id"):
             if impl.get(k) != model.get(k):
                 return "%s differs on an accepted token: impl %s model %s" % (k, json.dumps(impl.get(k))[:200], json.dumps(model.get(k))[:200])
